@@ -350,6 +350,14 @@ func (s *authzServer) validateIssuer(vContext *validationContext) error {
 		vContext.requester = requester
 	}
 
+	// the signing key must be a key of the issuer: the key is resolved through the DID in the key ID,
+	// so that DID must be the issuer's
+	if signerDID, err := resolver.GetDIDFromURL(vContext.kid); err != nil {
+		return fmt.Errorf(errInvalidIssuerKeyFmt, err)
+	} else if !signerDID.Equals(*vContext.requester) {
+		return fmt.Errorf(errInvalidIssuerKeyFmt, errors.New("signing key is not a key of the issuer"))
+	}
+
 	validationTime := vContext.jwtBearerToken.IssuedAt()
 	metadata := &resolver.ResolveMetadata{
 		ResolveTime: &validationTime,
